@@ -132,3 +132,11 @@ MUTATIONS += [
     dict(id="C05-packs-time-check-inverted", prop="C05", file=CK, old="            if check_time && p.time.is_none() {", new="            if !check_time && p.time.is_none() {"),
     dict(id="C05-packs-list-check-skipped-when-hot", prop="C05", file=CK, old="    let p = repo.progress_spinner(\"listing packs...\");\n    check_packs_list(be, &mut packs, collector)?;", new="    let p = repo.progress_spinner(\"listing packs...\");\n    if hot_be.is_none() {\n        check_packs_list(be, &mut packs, collector)?;\n    }"),
 ]
+
+# ---- `continue` inside for loops (R-forcontinue fallback)
+MUTATIONS += [
+    dict(id="C05-trees-skip-dirs-continue", prop="C05", file=CK, old="        for node in tree.nodes {\n            match node.node_type {", new="        for node in tree.nodes {\n            if node.node_type == NodeType::Dir && node.subtree.is_none() {\n                continue;\n            }\n            match node.node_type {"),
+]
+HARMLESS = [
+    dict(id="H-C05-trees-symlink-continue", prop="C05", file=CK, old="        for node in tree.nodes {\n            match node.node_type {", new="        for node in tree.nodes {\n            if node.node_type == NodeType::Symlink {\n                continue;\n            }\n            match node.node_type {"),
+]
